@@ -216,6 +216,36 @@ class MaskInfo:
             st.assume(a)
 
 
+def _binary_partition(st, cache, pr, nkey, info, m, memo):
+    """masks `f == 0` and `f == 1` over the same index range partition it when
+    f only takes the values 0 and 1"""
+    if not z3.is_eq(pr):
+        return
+    a, b = pr.arg(0), pr.arg(1)
+    if z3.is_int_value(a):
+        a, b = b, a
+    if not z3.is_int_value(b) or b.as_long() not in (0, 1):
+        return
+    sib = z3.simplify(a == (1 - b.as_long()))
+    skey = (canon_key(sib, memo), nkey)
+    if skey not in cache:
+        skey = (canon_key(z3.simplify(z3.Not(sib)), memo), nkey)
+        if skey in cache:
+            # the sibling is stored through its complement
+            info2, m2 = cache[skey]
+            f = lambda i: z3.substitute(a, (_PROBE, i))  # noqa: E731
+            st.assume(z3.Implies(
+                forall_idx(m.n, lambda i: z3.Or(f(i) == 0, f(i) == 1)),
+                info.cnt + (m.n - info2.cnt) == m.n))
+        return
+    if skey in cache:
+        info2, m2 = cache[skey]
+        f = lambda i: z3.substitute(a, (_PROBE, i))  # noqa: E731
+        st.assume(z3.Implies(
+            forall_idx(m.n, lambda i: z3.Or(f(i) == 0, f(i) == 1)),
+            info.cnt + info2.cnt == m.n))
+
+
 def mask_info(st, m):
     if m.k != 'bool':
         raise OutsideSubset('mask of kind ' + m.k)
@@ -255,6 +285,7 @@ def mask_info(st, m):
                         info.rank(j) == info2.rank(j),
                         info.nsel(j) == info2.nsel(j),
                         info.nrank(j) == info2.nrank(j))))))
+        _binary_partition(st, cache, m.at(_PROBE), nkey, info, m, memo)
         cache[key] = (info, m)
         st.ghost['maskinfo'] = cache
     return cache[key][0], True
@@ -293,7 +324,8 @@ def filter_mask2(st, a, m, need):
 
 def flatnonzero(st, m):
     c, sel, rank = sel_of(st, m)
-    return Arr(c, lambda j: sel(j), 'int', tag=('flatnonzero', m))
+    return Arr(c, lambda j: sel(j), 'int', tag=('flatnonzero', m),
+               facts=dict(distinct=True, within=m))
 
 
 def assign_mask_scalar(st, a, m, v, need):
@@ -329,6 +361,28 @@ def assign_idx_scalar(st, a, idx, v, need):
         z3.And(wit(i) >= 0, wit(i) < idx.n, norm(idx.at(wit(i))) == i)),
         patterns=[hit(i)]))
     new = Arr(a.n, lambda i: z3.If(hit(i), t, a.at(i)), a.k)
+    if a.k == 'int':
+        # counting facts for the value written (numpy semantics of a[idx] = v)
+        mo = Arr(a.n, lambda i: a.at(i) == t, 'bool')
+        mn = Arr(a.n, lambda i: new.at(i) == t, 'bool')
+        ca, cn = count(st, mo), count(st, mn)
+        j, k = qi('j'), qi('k')
+        distinct = z3.ForAll([j, k], z3.Implies(
+            z3.And(j >= 0, j < k, k < idx.n), idx.at(j) != idx.at(k)))
+        were_other = forall_idx(idx.n, lambda j: a.at(norm(idx.at(j))) != t)
+        st.assume(z3.And(cn >= ca, cn <= ca + idx.n))
+        if idx.facts.get('distinct'):
+            distinct = z3.BoolVal(True)       # known from the construction
+        w = idx.facts.get('within')
+        if w is not None:
+            # every written position satisfies mask w; if w is (pointwise) the
+            # negation of `a == t`, the positions held another value before
+            pr = z3.simplify(w.at(_PROBE))
+            if canon_key(pr) == canon_key(z3.simplify(
+                    z3.Not(a.at(_PROBE) == t))):
+                were_other = z3.BoolVal(True)
+        st.assume(z3.Implies(distinct, cn >= idx.n))
+        st.assume(z3.Implies(z3.And(distinct, were_other), cn == ca + idx.n))
     if a.k == 'bool' and v is True:
         # counting fact: setting len(idx) distinct, previously-False positions
         # raises the number of True entries by exactly len(idx)
@@ -346,8 +400,14 @@ def gather(st, a, idx, need):
     """a[idx] for integer index array"""
     need('index_in_range', forall_idx(
         idx.n, lambda j: z3.And(idx.at(j) >= -a.n, idx.at(j) < a.n)))
+    facts = {}
+    if a.facts.get('distinct') and idx.facts.get('distinct') and \
+            idx.facts.get('nonneg'):
+        facts['distinct'] = True
+    if a.facts.get('within') is not None:
+        facts['within'] = a.facts['within']
     return Arr(idx.n, lambda j: a.at(z3.If(idx.at(j) < 0, idx.at(j) + a.n,
-                                           idx.at(j))), a.k)
+                                           idx.at(j))), a.k, facts=facts)
 
 
 def norm_index(n, i):
@@ -377,7 +437,8 @@ def slice_arr(a, lo, hi):
     lo_t = clip(lo, ZERO)
     hi_t = clip(hi, n)
     ln = z3.If(hi_t >= lo_t, hi_t - lo_t, ZERO)
-    return Arr(z3.simplify(ln), lambda j: a.at(lo_t + j), a.k, view=True)
+    return Arr(z3.simplify(ln), lambda j: a.at(lo_t + j), a.k, view=True,
+               facts=dict(a.facts))
 
 
 def reverse(a):
